@@ -17,6 +17,7 @@ def check(ctx):
     repo = ctx.repo
     P = repo.cls(POLY, "Polygon")
     D = repo.cls(DEV, "Device")
+    ctx.rule("R18.8", "memoised geometry (cached properties, lazy attributes) is invalidated by every method that rebinds what it was computed from", 2)
     ctx.rule("R18.7", "set operations and copies return a new object, never the receiver (also for zero operands)", 5)
     ctx.rule("R18.6", "the mesh shared between a device and its copies is never modified in place", 1)
     ctx.rule("R18.1", "operators, set-operation methods, from_* constructors and _join_via agree on the operation name", 10)
@@ -208,6 +209,9 @@ def check(ctx):
                                  ("tdgl.device.device", "Device", ["copy"])],
                   "a set operation with an empty operand list (base.difference(*notches) with notches == []) returns the original polygon: "
                   "an in-place transformation of the 'result' silently moves the original (and any device built from it)")
+    from ..effects import memo_discipline
+    memo_discipline(ctx, "R18.8", "after an in-place transformation (translate / rotate / scale with inplace=True, or assigning points) the polygon "
+                                  "keeps answering membership and boundary queries with its old outline")
     ctx.decline("areas under affine maps, agreement of set operations with point-wise membership, boundary conventions: computed by shapely / matplotlib")
 
 
